@@ -290,6 +290,14 @@ def c03():
     while len(insts) < target:
         insts.append(random_instance(rng, max_jobs=rng.choice([1, 2, 3, 4]), max_ops=rng.choice([1, 2, 3]),
                                      max_m=rng.choice([1, 2, 3]), durs=(0, 0, 1, 2, 3, 5, 9), flexible=False))
+    # corners: nothing but zero durations; durations in fine time units on one machine / in one job (the optimum
+    # is the total work, so a horizon computed a little too small makes the model infeasible)
+    B = 2 ** 24 + 1
+    insts += [[[{"ms": [1], "d": 0}], [{"ms": [1], "d": 0}, {"ms": [2], "d": 0}]],
+              [[{"ms": [2], "d": 0}, {"ms": [1], "d": 0}, {"ms": [2], "d": 0}]],
+              [[{"ms": [1], "d": B}], [{"ms": [1], "d": B}], [{"ms": [1], "d": B + 2}]],
+              [[{"ms": [1], "d": B}, {"ms": [2], "d": B}, {"ms": [1], "d": B + 4}]],
+              [[{"ms": [1], "d": B}, {"ms": [2], "d": 3}], [{"ms": [2], "d": B + 1}, {"ms": [1], "d": 5}]]]
     traces = []
     for i, inst in enumerate(insts):
         nops = sum(len(j) for j in inst)
@@ -315,7 +323,9 @@ def c03():
     for k2, nm in enumerate(["la21"] + (["la27", "ta41"] if chk.tier == "thorough" else [])):
         bi = load_benchmark_instance(nm)
         s = dsession.DSession(len(insts) + len(names) + k2 + 1, model.instance_to_abstract(bi), [])
-        cpsat_event(s, "shortlimit", rng, lb=int(bi.metadata.get("lower_bound") or 0), ub=0, small=False, with_rules=False)
+        # (a run cut short may end "feasible" above the recorded optimum; claiming "optimal" there is judged against it)
+        cpsat_event(s, "shortlimit", rng, lb=int(bi.metadata.get("lower_bound") or 0),
+                    ub=int(bi.metadata.get("optimum") or 0), small=False, with_rules=False)
         traces.append(s.trace())
     chk.monitor(traces, source="cpsat-benchmarks")
     chk.assumptions.append("OR-Tools CP-SAT is a black box: only its results are judged")
